@@ -45,6 +45,10 @@ CLAIMED = {
    technique="TLA+ theorem Inverse on Record.tla (Pack / ParseOk over the Bits.tla codec) checked by TLC for all field lists up to a length; replay through the construction and read words incl. every emit split; seeded 20-field records judged by TLC (Trace_Pack)",
    text="TLC checks on the specification that for every field list (111 field shapes: widths 1..128 incl. 127/128, signed and unsigned, both byte orders, raw bits, strings, byte lists; so that fields start at every bit alignment) the packed length is the sum of the widths and parsing field by field returns the values and ends exactly at the end. Each exported list is packed on the real interpreter with the construction words, concatenated with >bitstr and with every split across emit calls under output interception, then parsed back with the matching read words: packed bits, parsed values, remain, output and output-length must be the specification's. Seeded records of up to 20 random fields are validated by TLC evaluating Pack/ParseOk on each recorded event.",
    note="Float fields are covered by C05; 128-bit unsigned fields cannot be cells and are excluded (DESIGN 5.19)."),
+ "C09": dict(cat="model_checking", design="5/C09",
+   technique="TLA+ bit-level arithmetic (Arith.tla) proved by TLC exhaustion at small widths against integer arithmetic, then used at W=128 as the oracle; exact small model of doubles; type-dispatch table; replay through eval; random i128 pairs judged by TLC (Trace_Arith)",
+   text="TLC proves by exhaustion at widths 4-6 (all operand pairs, all shift counts) that the W-bit two's-complement operators of Arith.tla (add, sub, mul with wide-product overflow test, truncating div/rem, neg, abs, min/max, comparisons, bitwise, shifts, popcount) agree with mathematical integer arithmetic, wrapped when not representable. The same operators at W=128 give the expected result of every word on a boundary family; a small exact model of doubles (zero, infinities, NaN, m*2^e) gives the IEEE results that are exactly representable; a dispatch table says which operand-type combinations are type errors and that the error must report one of the actual operands. Every case is replayed through eval; random boundary-biased i128 pairs evaluated by the real crate are judged by TLC at 128 bits.",
+   note="Rounding of inexact double results is assumed from f64; NaN comparisons, round ties and out-of-range conversions are unspecified by the property and not judged."),
 }
 
 PENDING_REASON = "check not built yet in this build session (planned, DESIGN.md section 12); no claim is made for it"
